@@ -371,6 +371,7 @@ type world struct {
 	rcptCancel context.CancelFunc
 	nbar       int
 	lastFrom   string
+	nilCB      bool // handlers are constructed with their optional callbacks left nil
 	gate       *gatedConn
 	expLive    int32 // Expect calls that have not returned
 
@@ -421,8 +422,14 @@ func (w *world) options(tap bool) []mux.Option {
 		return nil
 	}))
 	w.rcpt = &receipts.Handler{Unhandled: func(string) {}}
+	if w.nilCB {
+		w.rcpt = &receipts.Handler{} // every optional callback left nil
+	}
 	w.ibbh = &ibb.Handler{}
 	w.mucc = &muc.Client{HandleInvite: func(muc.Invitation) {}, HandleUserPresence: func(stanza.Presence, muc.Item) {}}
+	if w.nilCB {
+		w.mucc = &muc.Client{}
+	}
 	rost := roster.Handler{Push: func(ver string, item roster.Item) error {
 		if item.Name == "refuse" {
 			return stanza.Error{Type: stanza.Cancel, Condition: stanza.NotAllowed}
@@ -438,6 +445,11 @@ func (w *world) options(tap bool) []mux.Option {
 		List: func(c chan<- jid.JID) { c <- remoteJID; c <- localJID.Bare() },
 	}
 	xt := xtime.Handler{TimeFunc: func() time.Time { return time.Unix(1700000000, 0).UTC() }}
+	if w.nilCB {
+		xt = xtime.Handler{}
+		blk = blocklist.Handler{}
+		w.hist = history.NewHandler(nil)
+	}
 	ver := version.Query{Name: "verif", Version: "1", OS: "none"}
 	common := []mux.Option{
 		disco.Handle(),
@@ -487,8 +499,9 @@ func (w *world) options(tap bool) []mux.Option {
 }
 
 // newWorld builds the session and starts Serve (under a recover).
-func newWorld(tap bool, bare bool) (*world, error) {
+func newWorld(tap bool, bare bool, nilCB ...bool) (*world, error) {
 	w := &world{pipe: hx.NewPipe(), log: &tapLog{}, done: make(chan struct{}), local: localJID, mucCh: make(chan *muc.Channel, 8)}
+	w.nilCB = len(nilCB) > 0 && nilCB[0]
 	if bare {
 		w.local = localJID.Bare()
 	}
